@@ -14,4 +14,8 @@ def contracts():
     for layout in ("dense", "isotropic", "blockdiag"):
         c = ivp.Cfg(layout, "dynamic", "fixedpoint", "ts0", q=1, d=1)
         out += [interp.interpolate_fwd_contract(c), interp.interpolate_at_t1_contract(c)]
+    # ... and which state the time-stepping loop continues to interpolate from after a checkpoint (C06 loop contract)
+    from contracts import adaptive
+
+    out += [adaptive.loop_contract(False), adaptive.loop_contract(True)]
     return out
